@@ -81,6 +81,12 @@ func (s *Shard) fetchObjectData(addr oid.Address, skipMeta bool,
 		if mErr != nil && !s.info.Mode.NoMetabase() {
 			return false, mErr
 		}
+		if mErr == nil && !exists {
+			// The metabase does not know the object: a copy that is still
+			// lying in the write-cache (e.g. left by an interrupted
+			// deletion) must not be served, the same as for the blobstor.
+			return false, logicerr.Wrap(apistatus.ObjectNotFound{})
+		}
 	}
 
 	if s.hasWriteCache() {
